@@ -337,7 +337,7 @@ func verifDecEnd(a, t action, last bool) {
 		// other dependencies (when tracing; bounded), or for a seeded while (otherwise: no synchronisation is
 		// added, so that a -race build still sees the scheduler's own ordering only).
 		if verifTraceOn {
-			deadline := time.Now().Add(5 * time.Second)
+			deadline := time.Now().Add(3 * time.Second)
 			for time.Now().Before(deadline) && !verifT.hasStarted(t) {
 				time.Sleep(2 * time.Millisecond)
 			}
